@@ -222,6 +222,9 @@ func (fr *Frame) applyContract(in ssa.Instruction, callee *ssa.Function, sp *Fun
 			}
 			cenv := e.calleeEnv(callee, sp, args, binds, fr.st, nil)
 			cenv.old = e.entry
+			if tp := pkgOf(e.top); tp != nil {
+				cenv.pkg = tp.Pkg // call-site conditions are written in the caller's vocabulary
+			}
 			if fr.depth == 0 {
 				// the caller's own names (parameters and named locals) are visible too, prefixed
 				// names of the callee win on a clash; "caller.x" always means the caller's x
